@@ -253,6 +253,63 @@ def byte_contracts():
         raises=[Raises(BAD, when=lambda c: pos0(c) + NUML(S(c), pos0(c)) > SLEN(S(c)), label="short stream")],
         note="7z NUMBER: leading 1-bits of the first byte = number of extra little-endian bytes; "
              "the 8-step loop is `for i in range(8)` (exact unrolling, no unwinding assumption needed)"))
+    # ---- _read_boolean_vector: BOUNDED in `count` (the result list has concrete length in this engine)
+    BV_COUNTS = list(range(0, 18))
+
+    def bv_count(c):
+        k = c.args["count"].const() if isinstance(c.args["count"], VInt) else None
+        if k is None:
+            k = c.ex.concretize(c.entry, c.args["count"]) if hasattr(c.ex, "concretize") else None
+        if k is None or k not in BV_COUNTS:
+            raise ops.Unsupported("_read_boolean_vector: count outside the BOUNDED scope")
+        return k
+
+    def bv_cd(c):
+        v = c.args["check_defined"]
+        k = v.const() if isinstance(v, VBool) else None
+        if k is None:
+            raise ops.Unsupported("_read_boolean_vector: check_defined not a literal")
+        return k
+
+    def bitvector_spec(s, p, n):
+        """format: bit i of the vector is bit (7 - i mod 8) of byte p + i div 8"""
+        return [z3.Extract(7 - (i % 8), 7 - (i % 8), SB(s, z3.simplify(p + i // 8))) == 1 for i in range(n)]
+
+    def bv_all(c):
+        return z3.And(z3.BoolVal(bv_cd(c)), SB(S(c), pos0(c)) != bv(0))
+
+    def bv_need(c):
+        """bytes consumed"""
+        n = bv_count(c)
+        if bv_cd(c):
+            return z3.If(bv_all(c), 1, 1 + (n + 7) // 8)
+        return z3.IntVal((n + 7) // 8)
+
+    def bv_returns(c):
+        n = bv_count(c)
+        s, p = S(c), pos0(c)
+        if not bv_cd(c):
+            return c.ex.new_list(c.st, [VBool(t) for t in bitvector_spec(s, p, n)])
+        bits = bitvector_spec(s, p + 1, n)
+        return c.ex.new_list(c.st, [VBool(z3.Or(bv_all(c), t)) for t in bits])
+
+    def bv_short(c):
+        """raises only when the bytes the format needs are missing"""
+        n = bv_count(c)
+        L, p = SLEN(S(c)), pos0(c)
+        if bv_cd(c):
+            return z3.Or(p + 1 > L, z3.And(z3.Not(bv_all(c)), p + 1 + (n + 7) // 8 > L))
+        return z3.And(z3.BoolVal(n > 0), p + (n + 7) // 8 > L)
+
+    out.append(FnContract(
+        target=f"{RD}._read_boolean_vector",
+        params=[("self", p_reader()), ("count", p_alts(*[p_const(k) for k in BV_COUNTS])), ("check_defined", p_alts(p_const(False), p_const(True)))],
+        requires=req_stream, frame=frame_stream, returns=bv_returns,
+        ensures=[("consumes-exactly-the-vector", lambda c: pos1(c) == pos0(c) + bv_need(c)),
+                 ("returns-only-if-enough-bytes", lambda c: z3.Not(bv_short(c)))],
+        raises=[Raises(BAD, when=bv_short, label="short stream")],
+        bounded=f"count in 0..{BV_COUNTS[-1]}, check_defined in (False, True), all stream bytes symbolic",
+        note="7z BitVector (optionally preceded by the allAreDefined byte): MSB-first bits"))
     out.append(FnContract(
         target=f"{RD}._seek_back_one", params=[("self", p_reader())],
         requires=lambda c: z3.And(req_stream(c), pos0(c) >= 1), frame=frame_stream,
@@ -426,6 +483,37 @@ class C10Executor(Executor):
             for (_s, v) in res:
                 v.tag = ("slice", base.tag[1], z3.simplify(lo0 + lo))
         return res
+
+    def concretize(self, st, v):
+        """python int k when the path condition entails v == k (exact: not an assumption), else None"""
+        if isinstance(v, VBool):
+            v = VInt(ops.int_term(v))
+        if not isinstance(v, VInt):
+            return None
+        c = v.const()
+        if c is not None:
+            return c
+        from pyvc.symex import _has_quantifier
+        pcs = [p_ for p_ in st.pc if not _has_quantifier(p_)]
+        self.feas.push()
+        try:
+            self.feas.add(*pcs)
+            if self.feas.check() != z3.sat:
+                return None
+            val = self.feas.model().eval(v.t, model_completion=True)
+            if not (z3.is_int_value(val) or z3.is_bv_value(val)):
+                return None
+            self.feas.add(v.t != val)
+            return val.as_long() if self.feas.check() == z3.unsat else None
+        finally:
+            self.feas.pop()
+
+    def b_range(self, st, args, kwargs, node):
+        if len(args) == 1 and isinstance(args[0], VInt) and args[0].const() is None and getattr(self.contract, "bounded", ""):
+            k = self.concretize(st, args[0])
+            if k is not None and 0 <= k <= 64:
+                return [(st, VTuple([VInt(i) for i in range(k)]))]
+        return super().b_range(st, args, kwargs, node)
 
     def b_reversed(self, st, args, kwargs, node):
         v = args[0]
@@ -1485,6 +1573,135 @@ def rank_mono_at(a, b):
     return z3.Implies(z3.And(0 <= a, a <= b), RANK(a) <= RANK(b))
 
 
+# ==================================================== header parsers (BOUNDED) ==
+def p_reader_cases(extra, conds):
+    """one reader object, several alternatives distinguished by a condition on the stream at the entry position"""
+    base = p_reader(extra)
+
+    def mk(ex, st, name):
+        (c0, v), = base.make(ex, st, name)
+        s_ = st.obj(v.ref).data["_stream"]
+        pos = common.bytesio_pos(st, s_)
+        return [(z3.And([c for c in (c0, cond(s_.t, pos)) if c is not None]), v) for cond in conds]
+    return Maker(mk, desc=f"SevenZipReader ({len(conds)} bounded cases)")
+
+
+def p_empty_list():
+    return Maker(lambda ex, st, name: VRef(st.alloc(HeapObj("list", [], fresh=False), ex.refs)), desc="[]")
+
+
+def bits_spec(s, p, n):
+    return [z3.Extract(7 - (i % 8), 7 - (i % 8), SB(s, z3.simplify(p + i // 8))) == 1 for i in range(n)]
+
+
+def digests_spec(s, q, n):
+    """7z Digests over n streams at q -> [(cond, position after the section)]"""
+    out = [(SB(s, q) != bv(0), q + 1 + 4 * n)]
+    bits = bits_spec(s, q + 1, n)
+    import itertools as _it
+    for assign in _it.product((False, True), repeat=n):
+        c = z3.And([SB(s, q) == bv(0)] + [b if a else z3.Not(b) for a, b in zip(assign, bits)])
+        out.append((c, q + 1 + (n + 7) // 8 + 4 * sum(assign)))
+    return out
+
+
+def spec_pack_info(s, p, P):
+    """PackInfo ::= 0x06 packPos:NUMBER numPackStreams:NUMBER [0x09 size:NUMBER * n] [0x0A Digests(n)] 0x00
+    -> [(cond, ('none', p) | ('ok', packPos, [sizes], end) | ('bad', end))]   (7zFormat.txt)"""
+    cases = [(SB(s, p) != bv(6), ("none", p))]
+    first = SB(s, p) == bv(6)
+    q = p + 1
+    pp = NUMV(s, q)
+    q = q + NUML(s, q)
+    q = q + NUML(s, q)            # numPackStreams (== P in this bounded case)
+    t0, q0 = SB(s, q), q + 1
+    for has_size in (True, False):
+        if has_size:
+            c1, sizes, qq = t0 == bv(9), [], q0
+            for _ in range(P):
+                sizes.append(NUMV(s, qq))
+                qq = qq + NUML(s, qq)
+            t1, q1 = SB(s, qq), qq + 1
+        else:
+            c1, sizes, t1, q1 = t0 != bv(9), [], t0, q0
+        tails = [(t1 != bv(0x0A), t1, q1)] + [(z3.And(t1 == bv(0x0A), dc), SB(s, dq), dq + 1) for dc, dq in digests_spec(s, q1, P)]
+        for c2, t2, q2 in tails:
+            cases.append((z3.And(first, c1, c2, t2 == bv(0)), ("ok", pp, sizes, q2)))
+            cases.append((z3.And(first, c1, c2, t2 != bv(0)), ("bad", q2)))
+    return cases
+
+
+def parser_contracts():
+    out = []
+    PMAX = 3
+
+    def S(c):
+        return stream_of(c).t
+
+    def pk_cases(c):
+        P = c.entry.ghost.get("bounded_P")
+        return spec_pack_info(S(c), pos0(c), P)
+
+    def pk_post(c):
+        res = c.result
+        goals = []
+        d = c.st.obj(c.args["self"].ref).data
+        for cond, oc in pk_cases(c):
+            if oc[0] == "none":
+                g = z3.And(z3.BoolVal(res is NONE), pos1(c) == oc[1])
+            elif oc[0] == "bad":
+                g = z3.BoolVal(False)
+            else:
+                _ok, pp, sizes, end = oc
+                g = z3.BoolVal(False)
+                if isinstance(res, VTuple) and len(res.items) == 2 and isinstance(res.items[0], VInt):
+                    lst = c.ex.concrete_items(c.st, res.items[1])
+                    pl = c.ex.concrete_items(c.st, d["_pack_positions"])
+                    ps = c.ex.concrete_items(c.st, d["_pack_sizes"])
+                    if lst is not None and len(lst) == len(sizes) and pl is not None and len(pl) == 1 and ps is not None and len(ps) == len(sizes):
+                        want_abs = VInt(z3.ZeroExt(8, pp) + z3.BitVecVal(32, 72))
+                        g = z3.And([ops.eq_term(res.items[0], want_abs), ops.eq_term(pl[0], want_abs), pos1(c) == end, end <= SLEN(S(c))] +
+                                   [ops.eq_term(a, VInt(b)) for a, b in zip(lst, sizes)] + [ops.eq_term(a, VInt(b)) for a, b in zip(ps, sizes)])
+            goals.append(z3.Implies(cond, g))
+        return z3.And(goals)
+
+    def pk_raise(c):
+        L = SLEN(S(c))
+        alts = []
+        for cond, oc in pk_cases(c):
+            if oc[0] == "bad":
+                alts.append(cond)
+            elif oc[0] == "ok":
+                alts.append(z3.And(cond, oc[3] > L))
+        return z3.Or(alts + [pos0(c) + 1 > L])
+
+    def case_P(P):
+        def cond(s, pos):
+            return z3.Implies(SB(s, pos) == bv(6), NUMV(s, pos + 1 + NUML(s, pos + 1)) == bv(P, 64))
+        return cond
+
+    def pk_bind(c):
+        # which bounded alternative is this?  (the maker's condition pins numPackStreams)
+        for P in range(PMAX + 1):
+            t = NUMV(S(c), pos0(c) + 1 + NUML(S(c), pos0(c) + 1))
+            if not c.ex.feasible(c.st.pc, z3.And(SB(S(c), pos0(c)) == bv(6), t != bv(P, 64))):
+                c.entry.ghost["bounded_P"] = P
+                c.st.ghost["bounded_P"] = P
+                break
+        return req_stream(c)
+
+    out.append(FnContract(
+        target=f"{RD}._parse_pack_info",
+        params=[("self", p_reader_cases({"_header_offset": p_const(32), "_pack_positions": p_empty_list(), "_pack_sizes": p_empty_list()},
+                                        [case_P(P) for P in range(PMAX + 1)]))],
+        requires=pk_bind, modifies=("self",),
+        ensures=[("result-fields-and-position-equal-the-PackInfo-grammar", pk_post)],
+        raises=[Raises(BAD, when=pk_raise, label="bad end marker / short stream")],
+        bounded=f"numPackStreams in 0..{PMAX}; every byte of the stream symbolic (all NUMBER widths, with / without sizes, all digest layouts)",
+        note="PackInfo grammar of 7zFormat.txt; pack position made absolute by the 32-byte signature header"))
+    return out
+
+
 # ============================================================ detection (f) ==
 # published magic numbers (PKWARE APPNOTE 4.3.7 / 4.3.16, 7zFormat.txt, RFC 1952, bzip2 "BZh", xz file format 2.1.1.1,
 # POSIX ustar header: "ustar" at offset 257)
@@ -1609,6 +1826,7 @@ def contracts(reg):
     out = []
     out.extend(byte_contracts())
     out.extend(layout_contracts())
+    out.extend(parser_contracts())
     out.extend(build_contracts(reg))
     out.extend(member_contracts())
     out.extend(detect_contracts())
